@@ -955,7 +955,11 @@ impl DnsRecordExt for DnsSrv {
                     cmp::Ordering::Equal => {
                         // 3. compare `port`.
                         match self.port.to_be_bytes().cmp(&other_srv.port.to_be_bytes()) {
-                            cmp::Ordering::Equal => self.host.cmp(&other_srv.host),
+                            // 4. compare `target` as it is on the wire (uncompressed):
+                            // length-prefixed labels, not the dotted string.
+                            cmp::Ordering::Equal => {
+                                name_wire_bytes(&self.host).cmp(&name_wire_bytes(&other_srv.host))
+                            }
                             not_equal => not_equal,
                         }
                     }
@@ -980,6 +984,18 @@ impl DnsRecordExt for DnsSrv {
     fn boxed(self) -> DnsRecordBox {
         Box::new(self)
     }
+}
+
+/// Returns the uncompressed wire form of `name`: length-prefixed labels and the root.
+fn name_wire_bytes(name: &str) -> Vec<u8> {
+    let name = name.strip_suffix('.').unwrap_or(name);
+    let mut bytes = Vec::with_capacity(name.len() + 2);
+    for label in DnsOutPacket::parse_escaped_name(name) {
+        bytes.push(label.len() as u8);
+        bytes.extend_from_slice(label.as_bytes());
+    }
+    bytes.push(0);
+    bytes
 }
 
 /// Resource Record for a DNS TXT record.
